@@ -42,6 +42,8 @@ FIXTURES = [
     ("c01_bad_ask_merge_swapped", "bad", ["R5"]),
     ("c01_bad_rebuild_order", "bad", ["R6"]),
     ("c01_bad_minadd_no_reset", "bad", ["R7"]),
+    ("c01_good_push_take", "good", []),
+    ("c01_bad_push_take_late", "bad", ["R7"]),
     ("c01_bad_update_keeps_md", "bad", ["R7"]),
     ("c01_good_update_fieldwise", "good", []),
     ("c01_bad_combinator_push", "bad", ["R8"]),
@@ -76,6 +78,8 @@ def seg_roles(crate):
         b = R.fn[nm]
         if util.self_recursive(b) or not any(t["fn"].get("name") == callee and (t["fn"].get("trait") or "").endswith("SegtreeItem") for bb, t in b.calls()):
             raise Anchor("%s is expected to be the non-recursive helper calling SegtreeItem::%s" % (nm, callee))
+    R.helpers = util.private_helpers(crate, "Segtree", exclude=list(R.fn.values()))
+    _A[0] = util.analyser(R.helpers)
     return R
 
 
@@ -131,8 +135,13 @@ def norm_mid(t, a, b):
     return tuple(norm_mid(x, a, b) if isinstance(x, tuple) else x for x in t)
 
 
+_A = [None]
+
+
 def analyse(body):
-    return util.analyse(body)
+    """term-flow analysis with the crate's private non-role helper functions (children(i), mid(l, r), ...)
+    inlined into their callers"""
+    return (_A[0] or util.analyse)(body)
 
 
 def rule_push_before_descend(col, R, rid, names, sfx=""):
@@ -219,6 +228,13 @@ def rule_helpers_geometry(col, R, rid, sfx=""):
                         col.ok(rid + sfx, b.loc(ev.bb), key, "operands are the node and its two children, left then right")
                     else:
                         col.violation(rid + sfx, "%s|helper-operands" % fk(b), b.loc(ev.bb), "%s calls SegtreeItem::%s on %s; expected (data[i], data[2i+1], data[2i+2])" % (b.path, callee, ", ".join(tstr(a) for a in ev.args)))
+        if not found and nm == "rebuild_empty":
+            # delegation: merge_at(i) on the own node (merge_at itself is checked above)
+            for st in I.final_states:
+                for ev in st.event_list():
+                    if is_call_to(ev, R.fn["merge_at"]) and ev.args[1] == Pi:
+                        found = True
+                        col.ok(rid + sfx, b.loc(ev.bb), "%s|%s(data[i], data[2i+1], data[2i+2])" % (fk(b), callee), "delegates to merge_at(i)")
         if not found:
             col.violation(rid + sfx, "%s|helper-call" % fk(b), b.loc(), "%s does not call SegtreeItem::%s" % (b.path, callee))
 
@@ -410,7 +426,11 @@ def rule_routing(col, R, rid, sfx, only=None):
                     col.violation(rid + sfx, "%s|containment" % fk(b), b.loc(ev.bb), "%s recurses with a query range that is not provably inside the child's node range (cannot entail %s %s %s): elements outside the node would be folded or the range is empty" % (b.path, tstr(x), op, tstr(y)), {"facts": [(f[0], tstr(f[1]), f[2]) for f in ev.state[0] if f[0] != "imp" and "ovf" not in tstr(f[1])]})
             # partition of [l, r] in index order on this path (range families)
             if fam == "range":
-                z = ranges[-1][2]
+                # judged under the whole path's facts (a later branch may decide which pieces exist)
+                facts = set(st.facts)
+                for (op, x, y) in entry:
+                    facts.add(("eq", ("bin", op, x, y), 1))
+                z = zones.zone_of(frozenset((f[0], norm_mid(f[1], Pvl, Pvr), f[2]) if f[0] != "imp" else f for f in facts), I.tys)
                 ok = z.entails("Eq", ranges[0][0], Pl) and z.entails("Eq", ranges[-1][1], Pr)
                 for (a1, b1, _), (a2, b2, _) in zip(ranges, ranges[1:]):
                     ok = ok and z.entails("Eq", ("bin", "Add", b1, mk_int(1)), a2)
